@@ -1323,6 +1323,28 @@ def p_one( ctx ):
                          'with the send buffer full ( many requests written before any reply is read ) send() transmits part of the reply or raises socket.timeout, which the handler takes for "client abandoned": processed requests go unanswered, the stream carries a truncated frame', func=qn )
             else:
                 res.ok( src, part[0], 'replies are sent with one blocking conn.send( ... ): no time-out or non-blocking mode is set on the accepted connection' )
+        # a request whose processing fails ends the connection: the handler of the try around the per-frame enip_process hands the exception on
+        # on EVERY path through it ( it always ends in `raise` ).  Swallowed on some path - the clean-up and the raise slipped into the inner
+        # handler that only guards a log call - the frame gets no reply, the connection stays open, and the peer waits for ever
+        def always_raises_( stmts ):
+            for st in stmts:
+                if isinstance( st, ast.Raise ):
+                    return True
+                if isinstance( st, ast.If ) and st.orelse and always_raises_( st.body ) and always_raises_( st.orelse ):
+                    return True
+                if isinstance( st, ast.Try ) and ( always_raises_( st.finalbody ) or ( always_raises_( st.body + st.orelse ) and all( always_raises_( h_.body ) for h_ in st.handlers ))):
+                    return True
+            return False
+        if qn == 'enip_srv_tcp':
+            for a in acts:
+                tr = [ t_ for t_ in src.ancestors( a.stmt ) if isinstance( t_, ast.Try ) and any( t_ is x for x in ast.walk( loop )) and any( a.stmt is x or any( a.stmt is y for y in ast.walk( x )) for x in t_.body ) ]
+                for t_ in tr[:1]:
+                    for h_ in t_.handlers:
+                        if always_raises_( h_.body ):
+                            res.ok( src, h_, 'enip_srv_tcp: a failure of the request processor is handed on on every path through its handler ( the connection ends )' )
+                        else:
+                            res.bad( src, h_, 'enip_srv_tcp: the handler of a failed request can complete without raising',
+                                     'the failure is swallowed: no reply is sent for the frame, no clean-up signal reaches the request processor, and the connection is left open - the peer waits for a reply that never comes', func=qn )
         for a in acts:
             # outside the frame-parsing loop (the for over the engine)
             inner = _inside( src, a.stmt, ( ast.For, ), loop ) or _inside( src, a.stmt, ( ast.While, ), loop )
